@@ -25,5 +25,44 @@ class C04(Multi):
     pid = "C04"
     parts = [C04Queue()]
 
+    def run(self, tier):
+        """Queue pipeline + arithmetic samples at real magnitudes evaluated by Apalache (+ evidence identity lattice if present)."""
+        import time, json, os
+        import arith, verifkit as vk
+        from pipeline import finish
+        t0 = time.time()
+        res = [p.execute(tier) for p in self.parts]
+        ar = arith.consensus_arith(tier)
+        viol, known, cov = res[0]
+        cov["arith"] = {k: v for k, v in ar.items()}
+        fails = [{"name": "C04.ArithSample", "idx": 0, "h": None,
+                  "event": {"act": "ArithSample", "args": {"kind": f["kind"]}, "sample": f}} for f in ar["failures"]]
+        new, kn = vk.classify(self.pid, fails, self.parts[0].match_known)
+        known.update(kn)
+        for i, f in enumerate(new):
+            path = vk.write_replay(self.pid, 900 + i, [f["event"]], note={"monitors": ["C04.ArithSample"], "history": [], "sample": f["event"]["sample"]})
+            viol.append((None, ["C04.ArithSample"], path))
+        broken = None
+        try:
+            import c04_identity
+            ident = c04_identity.run_identity(tier)
+            cov["evidence_identity"] = {k: v for k, v in ident.items() if k not in ("events", "histories")}
+            fl = [{"name": "C04.EvidenceIdentity", "idx": 0, "h": None, "event": e} for e in ident.get("failures", [])]
+            new, kn = vk.classify(self.pid, fl, self.parts[0].match_known)
+            known.update(kn)
+            for i, f in enumerate(new):
+                path = vk.write_replay(self.pid, 950 + i, [f["event"]], note={"monitors": ["C04.EvidenceIdentity"], "history": []})
+                viol.append((None, ["C04.EvidenceIdentity"], path))
+        except ImportError:
+            cov["evidence_identity"] = "not built"
+        except vk.Broken as e:
+            # a sub-check that cannot run must not hide violations found by the other parts
+            broken = e
+            cov["evidence_identity"] = "broken: " + str(e)[:300]
+        if broken is not None and not viol:
+            raise broken
+        return finish(self.pid, tier, self.level, [(viol, known, cov)], self.parts[0].assumptions + [
+            "arithmetic at uint64 / 2^200 magnitudes: samples of the real libcons.VerifyGasEstimates / palomath.Median evaluated by Apalache against the TLA+ operators (shares bounded by 2^200: 3*sum must fit math.Int)"], t0)
+
 
 CHECK = C04()
